@@ -755,6 +755,22 @@ def rule_desc(rep: Report, rid="C03.desc") -> None:
         if in_loop and test is not None and test[0] == "bool" and test[1] == "and" and len(test[2]) == 2 and test[2][0] == src_list:
             pred_kind = blankness(test[2][1], last_text)
             trim_ok = pred_kind == "blank"
+    elif cut is not None and not muts and cut[0] == "loopout" and I.loops.get(cut[1], {}).get("kind") == "while":
+        # form E: end = len(tokens); while end > 0 and <blank(tokens[end - 1].matched_text)>: end -= 1
+        lid, var = cut[1], cut[2]
+        info = I.loops.get(lid, {})
+        phi = ("phi", lid, var)
+        test = info.get("test")
+        node = next((n for n, ctx in nf.iter_nodes(br.tree) if n[0] == "loop" and n[1] == lid), None)
+        inside = [n for n, ctx in nf.iter_nodes(node[2])] if node else []
+        detail = f"index scan while {fmt(test, I) if test else None}, from {fmt(info.get('carried_init', {}).get(var), I)}"
+        last_text = ("attr", ("item", src_list, ("binop", "Sub", phi, const(1))), "matched_text")
+        if test is not None and test[0] == "bool" and test[1] == "and" and len(test[2]) == 2 and test[2][0] == mk_cmp("Gt", phi, const(0)) \
+                and info.get("carried_init", {}).get(var) == ("call", "len", (src_list,), ()) \
+                and info.get("carried", {}).get(var) == ("binop", "Sub", phi, const(1)) \
+                and not any(n[0] in ("break", "continue", "return", "raise", "mutate", "setattr", "setitem") for n in inside):
+            pred_kind = blankness(test[2][1], last_text)
+            trim_ok = pred_kind == "blank"
     elif cut is not None and not muts and cut[0] == "loopout":
         # form B: keep = len(tokens); for t in reversed(tokens): if <nonblank(t.matched_text)>: break; keep -= 1
         lid, var = cut[1], cut[2]
@@ -847,7 +863,15 @@ def rule_docstring_ast(rep: Report, rid="C13.ast") -> None:
     d = _dict_of(b, mr[0])
     sep = ("first", b.node, "DocStringSeparator")
     kw = _kw(b, mr[1])
-    get = lambda k: b.c(nf.strip_dropnone(d[k][0])) if k in d else None
+    def get(k):
+        """The value stored under k, None standing for 'absent': an entry stored only under a condition is its value when the
+        condition holds and absent otherwise (the same as a conditional value that the None filter drops)."""
+        if k not in d:
+            return None
+        v = nf.strip_dropnone(d[k][0])
+        for c_, pol in reversed(list(d[k][1] or ())):
+            v = mk_cond(c_ if pol else mk_not(c_), v, NONE)
+        return b.c(v)
     # content
     c = get("content")
     ok = False
